@@ -18,6 +18,7 @@ class ClassWorld:
         self.ev = fde.Evaluator(extra_funcs)
         self.ev.funcs["__super__"] = self._super
         self.genv: Dict[str, Any] = dict(pre_env or {})
+        self._pre = set(self.genv)
         self.classes: Dict[str, ast.ClassDef] = {}
         self.class_mod: Dict[str, Module] = {}
         for m in modules:
@@ -54,7 +55,7 @@ class ClassWorld:
                     except (Undecided, Exception):
                         continue
                     for t in tgts:
-                        if isinstance(t, ast.Name):
+                        if isinstance(t, ast.Name) and t.id not in self._pre:
                             self.genv[t.id] = v
         for exc in ("TypeError", "ValueError", "IndexError", "KeyError", "RuntimeError", "NotImplementedError"):
             self.genv[exc] = (lambda exc: lambda *a: Tag(exc))(exc)
@@ -135,6 +136,15 @@ class ClassWorld:
         if init is not None:
             FunctionValue(init, self.ev, self.genv, self_obj=o, owner=owner)(*args, **kwargs)
         return o
+
+    def adopt(self, obj: Obj, cls: str) -> Obj:
+        """Give a hand-made object the methods of the repository class `cls` (resolution along its MRO)."""
+        if cls not in self.classes:
+            raise Undecided(f"class {cls} not found")
+        obj.attrs["__class__"] = cls
+        obj.classes |= set(self.mro(cls))
+        obj.resolver = self._resolver
+        return obj
 
     def method(self, obj: Obj, name: str) -> FunctionValue:
         owner, fn = self.find_method(obj.attrs["__class__"], name)
